@@ -55,6 +55,8 @@ M = {
   ("no-finalize", PG + "net_model.cpp", "  check();\n  finalize();\n  Eigen::SparseMatrix", "  check();\n  Eigen::SparseMatrix", V, ["P3"]),
   ("blend-wrong-formula", PG + "place_global.cpp", "    ret.push_back((1.0f - blending) * v1[i] + blending * v2[i]);", "    ret.push_back((1.0f - blending) * v2[i] + blending * v1[i]);", V, ["QB"]),
   ("y-twin-uses-x-limits", PG + "density_grid.cpp", "          spreadCells(binTargets, binDemands, binLimitY(j), binLimitY(j + 1));", "          spreadCells(binTargets, binDemands, binLimitX(j), binLimitX(j + 1));", V, ["TW"]),
+  ("clear-before-early-return", PG + "density_legalizer.cpp", "      assignment.push_back(binCnt);\n    }\n  }\n  if (bins.empty() || cells.empty()) {\n    return;\n  }\n\n  for (auto [x, y] : binCandidates) {\n    binCells_[x][y].clear();\n  }\n", "      assignment.push_back(binCnt);\n    }\n    binCells_[x][y].clear();\n  }\n  if (bins.empty() || cells.empty()) {\n    return;\n  }\n", V, ["CC"]),
+  ("refine-picks-child-by-capacity", PG + "density_grid.cpp", "      if (i != 0 && parentX(i) == parentX(i - 1)) {\n        continue;\n      }", "      if ((i != 0 && parentX(i) == parentX(i - 1)) || binCapacity(i, j) == 0) {\n        continue;\n      }", V, ["CC"]),
   ("benign-blend-reordered", PG + "place_global.cpp", "    ret.push_back((1.0f - blending) * v1[i] + blending * v2[i]);", "    ret.push_back(blending * v2[i] + (1.0f - blending) * v1[i]);", H, []),
  ],
  "C07": [
@@ -120,6 +122,14 @@ M = {
  "C18": [
   ("fixed-cells-expanded", "src/coloquinte.cpp", "    if (!cellIsFixed_[i]) {\n      // Just round down here", "    if (true) {\n      // Just round down here", V, ["G15"]),
   ("fixed-cells-get-penalty", "src/coloquinte.cpp", "      expansions.push_back(1.0f);", "      expansions.push_back(1.0f + fixedPenalty);", V, ["G16"]),
+  ("density-guard-dropped", "src/coloquinte.cpp", "  double density = (double)cellArea / (double)rowArea;\n  if (density >= targetDensity) {\n    return;\n  }\n", "  double density = (double)cellArea / (double)rowArea;\n", V, ["NN"]),
+  ("factor-inverted", "src/coloquinte.cpp", "  double expansionFactor = targetDensity / density;", "  double expansionFactor = density / targetDensity;", V, ["NN"]),
+  ("rescale-proportional", "src/coloquinte.cpp", "      e = 1.0 + (e - 1.0) * ratio;", "      e *= ratio;", V, ["NN"]),
+  ("rounding-off-by-one", "src/coloquinte.cpp", "      int newW = (int)fracW;", "      int newW = (int)fracW - 1;", V, ["NN"]),
+  ("regions-deduplicated-by-origin", "src/coloquinte.cpp", "  // Now analyze the expansion for each cell; use the maximum of the expansion", "  expansionMap.erase(std::unique(expansionMap.begin(), expansionMap.end(), [](const CongestionRegion &a, const CongestionRegion &b) -> bool { return a.first.minX == b.first.minX && a.first.minY == b.first.minY; }), expansionMap.end());\n  // Now analyze the expansion for each cell; use the maximum of the expansion", V, ["RM"]),
+  ("benign-rescale-affine", "src/coloquinte.cpp", "      e = 1.0 + (e - 1.0) * ratio;", "      e = e * ratio + (1.0 - ratio);", H, []),
+  ("benign-factor-floor-at-one", "src/coloquinte.cpp", "  double expansionFactor = targetDensity / density;", "  double expansionFactor = std::max(1.0, targetDensity / density);", H, []),
+  ("benign-factor-ternary", "src/coloquinte.cpp", "  double expansionFactor = targetDensity / density;", "  double expansionFactor = targetDensity > density ? targetDensity / density : 1.0;", H, []),
   ("expansion-resets-heights", "src/coloquinte.cpp", "      cellWidth_[i] = newW;\n", "      cellWidth_[i] = newW;\n      cellHeight_[i] = h;\n", V, ["W5"]),
  ],
  "C19": [
@@ -147,7 +157,8 @@ R = {
  "C04": [("rename-tetris-candidates", [{"file": PD + "tetris_legalizer.cpp", "regex": r"\bbestY\b", "replace": "chosenY"}, {"file": PD + "tetris_legalizer.cpp", "regex": r"\bfound\b", "replace": "have"}], H)],
  "C05": [("rename-found", [{"file": PD + "place_detailed.cpp", "regex": r"\bfound\b", "replace": "gotOne"}, {"file": PD + "place_detailed.cpp", "regex": r"\bbestValue\b", "replace": "reference"}], H)],
  "C02": [("rename-found", [{"file": PD + "place_detailed.cpp", "regex": r"\bfound\b", "replace": "gotOne"}], H)],
- "C18": [("rename-result-vector", [{"file": "src/coloquinte.cpp", "regex": r"\bexpansions\b", "replace": "factors"}], H)],
+ "C18": [("rename-result-vector", [{"file": "src/coloquinte.cpp", "regex": r"\bexpansions\b", "replace": "factors"}], H),
+         ("rename-expansion-locals", [{"file": "src/coloquinte.cpp", "regex": r"\bfracW\b", "replace": "wide"}, {"file": "src/coloquinte.cpp", "regex": r"\bnewW\b", "replace": "nw"}, {"file": "src/coloquinte.cpp", "regex": r"\bexpansionMap\b", "replace": "hot"}, {"file": "src/coloquinte.cpp", "regex": r"\bratio\b", "replace": "shrink"}], H)],
  "C16": [("rename-locals", [{"file": PG + "density_legalizer.cpp", "regex": r"\bcells\b", "replace": "cs"}, {"file": PG + "density_grid.cpp", "regex": r"\ballCells\b", "replace": "initial"}], H)],
  "C14": [("rename-locals", [{"file": PG + "density_legalizer.cpp", "regex": r"\bassignment\b", "replace": "where"}, {"file": PG + "density_legalizer.cpp", "regex": r"\bcells\b", "replace": "cs"}], H)],
  "C06": [("rename-spread-locals", [{"file": PG + "density_grid.cpp", "regex": r"\bdem\b", "replace": "acc"}, {"file": PG + "density_grid.cpp", "regex": r"\bcoords\b", "replace": "out"}], H)],
